@@ -46,6 +46,9 @@ type fsWorld struct {
 }
 
 func newFSWorld(fsname, osname string, umask int) *fsWorld {
+	if fsname == "orefafs" {
+		return newOrefaWorld(osname, umask) // orefa.go
+	}
 	if fsname != "memfs" || osname != "linux" {
 		panic("unsupported fs/os " + fsname + "/" + osname)
 	}
@@ -91,6 +94,9 @@ func errCode(err error) string {
 		return "Ginvalid"
 	case io.EOF:
 		return "Geof"
+	}
+	if err.Error() == "EvalSymlinks: too many links" {
+		return "Gtoomany"
 	}
 	return "X" + tok(fmt.Sprintf("%T:%v", err, err))
 }
@@ -223,6 +229,9 @@ func (w *fsWorld) apply(t []string) string {
 	case "ES":
 		s, err := v.EvalSymlinks(untok(t[2]))
 		if err != nil {
+			if projMode {
+				return "E " + errCode(err)
+			}
 			return "EP " + errCode(err) + " " + tok(errPath(err))
 		}
 		return "S " + tok(s)
